@@ -97,7 +97,7 @@ Fixpoint run_slots (rrun : list prov) (dn up : list (nat * option nat)) (cnt : n
   | [] => ([], dn, up, cnt)
   | p :: r =>
     let (dn1, c1) := add_to_vmap (pflow p FIn) (p_downR p) (dn, cnt) in
-    let (up1, c2) := add_to_vmap (pflow p FRet) (p_upR p) (up, c1) in
+    let (up1, c2) := add_to_vmap (pflow p FRet) [] (up, c1) in     (* returned values: under their own types *)
     (* mustZeroIfInnerNotCalled; a static provider after invoke has no mustZeroIfRemainderSkipped list *)
     let zero := match p_class p with ClFallibleStatic => [] | _ => vm_mapped up1 end in
     match run_slots r dn1 up1 c2 with
